@@ -954,6 +954,7 @@ func runHistory(r *vk.Run, gp **Eng, seed int64, cfg histCfg) error {
 		gp = &own
 	}
 	g := *gp
+	cfl := probeFlags(g)
 	rng := rand.New(rand.NewSource(seed))
 	collSeq++
 	resetIDs()
@@ -1018,7 +1019,7 @@ func runHistory(r *vk.Run, gp **Eng, seed int64, cfg histCfg) error {
 		r.Stats["untied/"+cfg.name]++
 		return nil
 	}
-	coq := fmt.Sprintf("(%sCHist %v %s [%s] [%s] [\n  %s])", idBindings(), negZeroKeysDistinct(), hexS(idn0), strings.Join(fields0, "; "), strings.Join(ix0, "; "), strings.Join(h.steps, ";\n  "))
+	coq := fmt.Sprintf("(%sCHist %v %v %v %s [%s] [%s] [\n  %s])", idBindings(), cfl.nz, cfl.strict, cfl.uf, hexS(idn0), strings.Join(fields0, "; "), strings.Join(ix0, "; "), strings.Join(h.steps, ";\n  "))
 	bucket := "hist/" + cfg.name
 	if h.hasUnique() {
 		bucket += "+unique"
@@ -1033,7 +1034,7 @@ func runHistory(r *vk.Run, gp **Eng, seed int64, cfg histCfg) error {
 		lg = lg[:400]
 	}
 	r.Case(coq, map[string]any{"kind": "history", "hseed": fmt.Sprint(seed), "cfg": cfg.name, "edgy": cfg.edgy, "nops": cfg.nops,
-		"schema": schema0, "log": lg, "steps": len(h.steps), "viol": h.viol, "known": h.known, "features": fl},
+		"schema": schema0, "flags": fmt.Sprintf("nz=%v strict=%v uf=%v", cfl.nz, cfl.strict, cfl.uf), "log": lg, "steps": len(h.steps), "viol": h.viol, "known": h.known, "features": fl},
 		bucket, h.wrote && h.hits > 0)
 	return nil
 }
